@@ -375,7 +375,8 @@ class PhaseKeyBinding(Job):
 
 def jobs(tier):
     thorough = tier == "thorough"
-    J = [PhaseKeyBinding()]
+    from harness.phase_dispatch import HoldBack
+    J = [PhaseKeyBinding(), HoldBack()]      # ("encrypted for exactly that phase": a dilate-N plaintext never reaches the application as message N)
     for cfg in (ALL_CONFIGS if thorough else CONFIGS):
         n = len(canonical(cfg, ALL_CONFIGS, False))
         step = 3 if thorough else 6
